@@ -130,6 +130,14 @@ pub trait Property: Sync {
     fn fixed_cases(&self) -> Vec<Vec<u8>> {
         vec![]
     }
+    /// generator-independent form of the case (e.g. the program IR). Replay files store it, and
+    /// `run_structured` replays from it, so that saved regressions survive generator changes.
+    fn structured(&self, _bytes: &[u8]) -> Option<J> {
+        None
+    }
+    fn run_structured(&self, _case: &J, _tier: Tier) -> Option<CaseOut> {
+        None
+    }
     /// a short tag describing what the case does, appended to the signature of a crash or hang
     /// (which carries no detail of its own) so that a known crash does not mask other crashes;
     /// must only decode, never run the case
@@ -239,8 +247,12 @@ fn sanitize_sig(s: &str) -> String {
 /// signature `panic:<file>:<sanitized message>` (file without line so that unrelated edits do not
 /// change it).
 pub fn run_guarded(prop: &dyn Property, bytes: &[u8], tier: Tier) -> CaseOut {
+    guarded(fnv64(bytes), || prop.run(bytes, tier))
+}
+
+pub fn guarded(fp: u64, f: impl FnOnce() -> CaseOut) -> CaseOut {
     LAST_PANIC.with(|p| *p.borrow_mut() = None);
-    let res = std::panic::catch_unwind(std::panic::AssertUnwindSafe(|| prop.run(bytes, tier)));
+    let res = std::panic::catch_unwind(std::panic::AssertUnwindSafe(f));
     match res {
         Ok(out) => out,
         Err(_) => {
@@ -257,11 +269,31 @@ pub fn run_guarded(prop: &dyn Property, bytes: &[u8], tier: Tier) -> CaseOut {
                 verdict: Verdict::Fail(Failure::new("no_panic", &sig, format!("panic: {}", msg))),
                 nontrivial: false,
                 labels: vec!["panic".into()],
-                fingerprint: fnv64(bytes),
+                fingerprint: fp,
                 execs: 1,
             }
         }
     }
+}
+
+/// run a saved replay: from its generator-independent form when the property supports that,
+/// else from the choice bytes
+pub fn run_replay_json(prop: &dyn Property, j: &J, tier: Tier) -> CaseOut {
+    if !j["structured"].is_null() {
+        let mut supported = true;
+        let out = guarded(0, || match prop.run_structured(&j["structured"], tier) {
+            Some(o) => o,
+            None => {
+                supported = false;
+                CaseOut::pass(0)
+            }
+        });
+        if supported {
+            return out;
+        }
+    }
+    let bytes = unhex(j["choices"].as_str().unwrap_or(""));
+    run_guarded(prop, &bytes, tier)
 }
 
 // ---------------------------------------------------------------------------------------------
@@ -442,10 +474,15 @@ pub fn worker_main(prop: &dyn Property, tier: Tier, seed: u64, k: u64, n: u64, o
 // ---------------------------------------------------------------------------------------------
 
 /// exit code 0: pass/discard/known, 3: failure (JSON on stdout)
-pub fn one_main(prop: &dyn Property, tier: Tier, hexfile: &Path) -> i32 {
+pub fn one_main(prop: &dyn Property, tier: Tier, file: &Path) -> i32 {
     install_quiet_panic_hook();
-    let bytes = unhex(&std::fs::read_to_string(hexfile).expect("hexfile"));
-    let out = run_guarded(prop, &bytes, tier);
+    let text = std::fs::read_to_string(file).expect("case file");
+    let out = if text.trim_start().starts_with('{') {
+        let j: J = serde_json::from_str(&text).expect("replay json");
+        run_replay_json(prop, &j, tier)
+    } else {
+        run_guarded(prop, &unhex(&text), tier)
+    };
     match out.verdict {
         Verdict::Fail(f) => {
             println!("{}", f.to_json());
@@ -466,10 +503,14 @@ enum OneResult {
 fn run_one_isolated(prop: &dyn Property, tier: Tier, bytes: &[u8], scratch: &Path, timeout: Duration) -> OneResult {
     let hexfile = scratch.join(format!("one_{}.hex", std::process::id()));
     std::fs::write(&hexfile, hex(bytes)).unwrap();
+    run_file_isolated(prop, tier, &hexfile, timeout)
+}
+
+fn run_file_isolated(prop: &dyn Property, tier: Tier, hexfile: &Path, timeout: Duration) -> OneResult {
     let exe = std::env::current_exe().unwrap();
     let mut child = std::process::Command::new(exe)
         .args(["one", prop.id(), tier.name()])
-        .arg(&hexfile)
+        .arg(hexfile)
         .stdout(std::process::Stdio::piped())
         .stderr(std::process::Stdio::null())
         .spawn()
@@ -579,6 +620,7 @@ fn write_replay(prop: &dyn Property, bytes: &[u8], f: &Failure, tier: Tier) -> P
         "choices": hex(bytes),
         "failure": f.to_json(),
         "decoded": decoded,
+        "structured": std::panic::catch_unwind(std::panic::AssertUnwindSafe(|| prop.structured(bytes))).ok().flatten(),
         "replay_cmd": format!("/verif/check {} --replay {}", prop.id(), path.display()),
     });
     std::fs::write(&path, serde_json::to_string_pretty(&j).unwrap()).unwrap();
@@ -624,7 +666,7 @@ pub fn parent_main(prop: &dyn Property, tier: Tier) -> i32 {
             let Ok(j) = serde_json::from_str::<J>(&s) else { continue };
             let bytes = unhex(j["choices"].as_str().unwrap_or(""));
             replayed += 1;
-            match run_one_isolated(prop, tier, &bytes, &scratch, prop.case_timeout()) {
+            match run_file_isolated(prop, tier, &f, prop.case_timeout()) {
                 OneResult::Pass => {}
                 OneResult::Fail(fl) => {
                     if known.iter().any(|k| k.sig == fl.sig) {
@@ -933,8 +975,12 @@ pub fn replay_main(prop: &dyn Property, file: &Path) -> i32 {
     let j: J = serde_json::from_str(&s).expect("replay json");
     let bytes = unhex(j["choices"].as_str().unwrap_or(""));
     let tier = Tier::parse(j["tier"].as_str().unwrap_or("quick"));
-    println!("decoded: {}", serde_json::to_string_pretty(&prop.describe(&bytes)).unwrap());
-    let out = run_guarded(prop, &bytes, tier);
+    if j["structured"].is_null() {
+        println!("decoded: {}", serde_json::to_string_pretty(&prop.describe(&bytes)).unwrap());
+    } else {
+        println!("decoded (saved with the replay): {}", serde_json::to_string_pretty(&j["decoded"]).unwrap());
+    }
+    let out = run_replay_json(prop, &j, tier);
     match out.verdict {
         Verdict::Fail(f) => {
             let known = load_known(prop.id());
